@@ -36,9 +36,38 @@ var c02Cells = func() []c02Cell {
 	return out
 }()
 
+// scenarioC02Random: generated programs (non-fatal signals followed by arbitrary later statements: Custom draws, state
+// machines, cleanups, skips) under the same conservation oracle — what happens AFTER a signal must not un-signal it.
+func scenarioC02Random(rc *RunCtx) {
+	t := rc.T
+	pf := failingProfile(t)
+	pf.FatalPct = 25
+	pf.PCustom = 60
+	pf.PRepeat = 35
+	pf.PCleanup = 30
+	pf.PCleanupFail = 40
+	pf.CustomFail = 30
+	pf.PGo = 15
+	pf.MaxStmts = 10
+	prog := GenProg(t, pf)
+	fl := genFlags(t, 12)
+	fl.Debug = false
+	cc := genClockChoice(t, fl.ShrinkTime, 6, 2, 1, 0, 0)
+	cr := RunCheck(prog, RunOpt{Name: genName(t, false), Dir: rc.FreshDir(), Flags: fl, Clock: cc.Resolve(0), WithCtx: t.Chance("tb.ctx", 15)})
+	rc.Note(cr)
+	rc.Sample = fmt.Sprintf("random-program mode %v verdict=%s\n%s", fl, cr.Verdict, prog)
+	rc.Key = MixSeed(HashString(prog.String()), fl.Seed, uint64(fl.Checks))
+	judgeC02(rc, cr, "random-program")
+}
+
 func scenarioC02(rc *RunCtx) {
 	t := rc.T
-	cell := c02Cells[t.Enum("c02.cell", len(c02Cells))]
+	m := t.Enum("c02.mode", 4)
+	if m == 3 {
+		scenarioC02Random(rc)
+		return
+	}
+	cell := c02Cells[t.EnumAt("c02.cell", len(c02Cells), (t.Idx/4)*3+m)]
 	k := t.Int("c02.k", 1, 5)
 	fl := genFlags(t, 12)
 	fl.Steps = t.Int("c02.steps", 4, 12)
@@ -79,6 +108,7 @@ func scenarioC02(rc *RunCtx) {
 	}
 	S := &Stmt{K: SIf, Cond: cond, Body: sigBody}
 	p := &Prog{NVars: 4, NSites: 1}
+	_ = p
 	x := &Stmt{K: SDraw, Var: 0, Gen: &GenSpec{K: "smallrange", A: 9}, Label: "x"}
 	body := append([]*Stmt{}, pre...)
 	body = append(body, x)
@@ -105,8 +135,29 @@ func scenarioC02(rc *RunCtx) {
 	case 6:
 		body = append(body, custom([]*Stmt{{K: SCleanup, ID: 0, Body: []*Stmt{S}}}))
 	}
-	if t.Chance("c02.trailing", 30) {
-		body = append(body, &Stmt{K: SLog})
+	// what follows the signal must not un-signal it
+	for n := t.Int("c02.trailing", 0, 3); n > 0; n-- {
+		switch t.Pick("c02.trail.kind", 6) {
+		case 0:
+			body = append(body, &Stmt{K: SLog})
+		case 1:
+			c := &CustomSpec{ID: len(p.Customs), NDraw: 1, Max: 9, Vars: []int{p.NVars}}
+			p.NVars++
+			p.Customs = append(p.Customs, c)
+			p.NCustom = len(p.Customs)
+			body = append(body, &Stmt{K: SDraw, Var: p.NVars, Gen: &GenSpec{K: "custom", Cust: c}, Label: "tc"})
+			p.NVars++
+		case 2:
+			body = append(body, &Stmt{K: SDraw, Var: p.NVars, Gen: &GenSpec{K: "filter_even", Sub: &GenSpec{K: "uint8"}}, Label: "tf"})
+			p.NVars++
+		case 3:
+			body = append(body, &Stmt{K: SCtx})
+		case 4:
+			body = append(body, &Stmt{K: SCleanup, ID: 90 + n, Body: []*Stmt{{K: SCtx}}})
+		case 5:
+			body = append(body, &Stmt{K: SRepeat, HasInv: true, Inv: []*Stmt{{K: SLog}}, Acts: []Action{{Name: "Z", Body: []*Stmt{{K: SDraw, Var: p.NVars, Gen: &GenSpec{K: "uint8"}, Label: "tz"}}}}})
+			p.NVars++
+		}
 	}
 	p.Body = body
 	cc := genClockChoice(t, fl.ShrinkTime, 6, 2, 1, 0, 0)
